@@ -180,6 +180,10 @@ func validateBasisPoints(bps *FeeInfo_BasisPoints) error {
 	return nil
 }
 
+// FeeTypeJSONFields contains the JSON names (both the proto and the lower camel case ones)
+// of the fields belonging to the fee type oneof of a FeeInfo. Only one of them can be set.
+var FeeTypeJSONFields = []string{"basis_points", "basisPoints", "amount"}
+
 type RecipientAmount struct {
 	Recipient sdk.AccAddress
 	Amount    sdk.Coins
